@@ -260,6 +260,150 @@ def ddmin(runner, hist_lines, prop, budget=120):
     return [head] + ops
 
 
+# ---------------------------------------------------------------- extraction cross-check
+COQ_DIGEST = """From Coq Require Import List ZArith NArith.
+From BPT Require Import Common.Base C.Node C.Tree C.Run.
+Import ListNotations.
+Definition dk (o : key) : Z := Z.of_N (kid o).
+Definition digest (x : out) : list Z :=
+  match x with
+  | UNone => [0] | UVal v => [1; dk v] | UBool b => [2; if b then 1 else 0] | UNat n => [3; Z.of_nat n]
+  | UKeyError => [4] | URuntimeError => [5] | UValueError => [6] | UStop => [7]
+  | UKey k => [8; dk k] | UItem k v => [9; dk k; dk v]
+  | UKeys l => 10 :: map dk l | UItems l => 11 :: flat_map (fun e => [dk (fst e); dk (snd e)]) l
+  | UVals l => 12 :: map dk l | UNoTree => [13] | UNoIter => [14]
+  | UOOB s => [15; Z.of_nat s] | UNullDeref s => [16; Z.of_nat s] | UFuel => [17]
+  end%Z.
+Definition K (o v : Z) : key := mkKey o (Z.to_N (2 * (16 * o + v))).
+Definition V (n : Z) : key := mkKey 0 (Z.to_N (2 * n + 1)).
+Definition go (cap : Z) (ops : list op) : list (list Z) :=
+  digest (snd (st_init cap)) :: map digest (snd (run (fst (st_init cap)) ops)).
+"""
+
+
+def _kid(tok):
+    if tok.startswith("v"):
+        return 2 * int(tok[1:]) + 1
+    a, b = tok.split(".")
+    return 2 * (16 * int(a) + int(b))
+
+
+def _coq_key(tok):
+    a, b = tok.split(".")
+    return "(K %s %s)" % (a, b)
+
+
+def _coq_op(line):
+    t = line.split()
+    o = t[0]
+    z = lambda tok: "(%s)%%Z" % tok.split(".")[0]
+    if o == "set": return "OSet %s (V %s)" % (_coq_key(t[1]), t[2][1:])
+    if o == "get": return "OGet %s" % z(t[1])
+    if o == "del": return "ODel %s" % z(t[1])
+    if o == "in": return "OIn %s" % z(t[1])
+    if o == "len": return "OLen"
+    if o in ("keys", "iter"): return "OKeys"
+    if o == "items": return "OItems"
+    if o == "it_new": return "OItNew %s %s" % (t[2], "true" if t[1] == "i" else "false")
+    if o == "it_next": return "OItNext %s" % t[1]
+    if o == "it_drop": return "OItDrop %s" % t[1]
+    if o == "wget": return "WGet %s (V %s)" % (z(t[1]), t[2][1:])
+    if o == "wvalues": return "WValues"
+    if o == "wclear": return "WClear"
+    if o == "wpop": return "WPop %s %s" % (z(t[1]), ("(Some (V %s))" % t[2][1:]) if len(t) > 2 else "None")
+    if o == "wpopitem": return "WPopitem"
+    if o == "wsetdefault": return "WSetdefault %s (V %s)" % (_coq_key(t[1]), t[2][1:])
+    if o == "wupdate":
+        a = t[1:]
+        return "WUpdate [%s]" % "; ".join("(%s, V %s)" % (_coq_key(a[i]), a[i + 1][1:]) for i in range(0, len(a), 2))
+    if o == "wcopy": return "WCopy"
+    if o == "wswap": return "WSwap"
+    if o == "wcap": return "WCapacity"
+    raise ValueError(line)
+
+
+def _digest_of_trace_line(rest):
+    """digest of the text after 'O <hid> <step> '"""
+    t = rest.split()
+    head = t[0] if t else ""
+    items = lambda s: [x for x in s.strip("[]").split() if x]
+    body = rest[len(head):].strip()
+    if head == "None": return [0]
+    if head == "val": return [1, _kid(t[1])]
+    if head in ("True", "False"): return [2, 1 if head == "True" else 0]
+    if head.isdigit(): return [3, int(head)]
+    if head == "KeyError": return [4]
+    if head == "RuntimeError": return [5]
+    if head == "ValueError": return [6]
+    if head == "StopIteration": return [7]
+    if head == "key": return [8, _kid(t[1])]
+    if head == "item":
+        k, v = t[1].split("=")
+        return [9, _kid(k), _kid(v)]
+    if head == "keys": return [10] + [_kid(x) for x in items(body)]
+    if head == "items":
+        out = [11]
+        for x in items(body):
+            k, v = x.split("=")
+            out += [_kid(k), _kid(v)]
+        return out
+    if head == "vals": return [12] + [_kid(x) for x in items(body)]
+    if head == "notree": return [13]
+    if head == "noiter": return [14]
+    if head == "OOB": return [15, int(t[1])]
+    if head == "NULLDEREF": return [16, int(t[1])]
+    if head == "OUTOFFUEL": return [17]
+    return [-1]
+
+
+def extraction_crosscheck(runner, shard_text, root, max_cases=40):
+    """evaluate small histories with vm_compute inside coqc and compare with what the
+       extracted OCaml driver printed for the same histories; returns (n_checked, [mismatch])"""
+    d = os.path.join(runner.runs, "xcheck_c")
+    shutil.rmtree(d, ignore_errors=True)
+    os.makedirs(d)
+    hs = []
+    cur = None
+    for line in shard_text.splitlines():
+        if line.startswith("H "):
+            cur = [line]
+            hs.append(cur)
+        elif cur is not None and line.strip() and not line.startswith("#"):
+            cur.append(line)
+    small = [h for h in hs if len(h) <= 60 and 0 <= int([t for t in h[0].split() if t.startswith("cap=")][0][4:]) <= 70000][:max_cases]
+    if not small:
+        return 0, []
+    ops = os.path.join(d, "ops")
+    open(ops, "w").write("\n".join("\n".join(h) for h in small) + "\n")
+    r = subprocess.run([runner.driver, ops], stdout=subprocess.PIPE, stderr=subprocess.PIPE, timeout=600)
+    want = {}
+    for line in r.stdout.decode().splitlines():
+        if line.startswith("O "):
+            _, hid, step, rest = line.split(" ", 3)
+            want.setdefault(hid, []).append(_digest_of_trace_line(rest))
+    v = [COQ_DIGEST]
+    for i, h in enumerate(small):
+        cap = [t for t in h[0].split() if t.startswith("cap=")][0][4:]
+        v.append("Definition c%d := go (%s)%%Z [%s]." % (i, cap, "; ".join(_coq_op(l) for l in h[1:])))
+        v.append('Goal True. idtac "CASE %s". Abort.\nEval vm_compute in c%d.' % (h[0].split()[1], i))
+    open(os.path.join(d, "cases.v"), "w").write("\n".join(v) + "\n")
+    r = subprocess.run(["timeout", "900", "coqc", "-Q", runner.coq_dir, "BPT", "cases.v"], cwd=d,
+                       stdout=subprocess.PIPE, stderr=subprocess.STDOUT)
+    out = r.stdout.decode("utf-8", "replace")
+    if r.returncode != 0:
+        return 0, ["coqc failed on cases.v: " + out[-800:]]
+    bad = []
+    n = 0
+    for m in re.finditer(r"CASE (\S+)\n\s*= (.*?)\n\s*: list \(list Z\)", out, re.S):
+        hid, term = m.group(1), m.group(2)
+        got = [[int(x) for x in re.findall(r"-?\d+", grp)] for grp in re.findall(r"\[([^\[\]]*)\]", term)]
+        n += 1
+        if got != want.get(hid):
+            bad.append("history %s: vm_compute %s  vs  extracted driver %s" % (hid, str(got)[:300], str(want.get(hid))[:300]))
+    shutil.rmtree(d, ignore_errors=True)
+    return n, bad
+
+
 def check(prop, seed, tier, root):
     from concurrent.futures import ThreadPoolExecutor
     t0 = time.time()
@@ -281,6 +425,11 @@ def check(prop, seed, tier, root):
         return 2
     # 3./4. corpus + fresh cases
     shards = make_shards(prop, seed, tier, root)
+    nx, xbad = extraction_crosscheck(runner, shards[-1], root)
+    print(f"[{prop}] extraction cross-check (vm_compute vs extracted OCaml): {nx} histories, {len(xbad)} mismatches", flush=True)
+    if xbad:
+        print("ERROR: the extracted driver and Coq's own evaluation of the model disagree (a /verif problem):\n" + "\n".join(xbad[:3]))
+        return 2
     jobs = [(f"{prop}-{i}", text, None, runner, True) for i, text in enumerate(shards)]
     with ThreadPoolExecutor(16) as ex:
         results = list(ex.map(runner.run_shard, jobs))
